@@ -2,8 +2,19 @@ use super::hook::TaskLifeCycle;
 use crate::{
     ActTask, Result,
     model::Step,
-    scheduler::{Context, TaskState},
+    scheduler::{Context, Task, TaskState},
 };
+use std::sync::Arc;
+
+/// the second and later acts of a step are linked to their predecessor act, not to the step:
+/// the step has to wait for them as well
+fn has_open_act(step: &Arc<Task>) -> bool {
+    step.proc().tasks().iter().any(|t| {
+        !t.state().is_completed()
+            && !t.is_event_processed()
+            && t.parent().map(|p| p.id == step.id).unwrap_or(false)
+    })
+}
 
 impl ActTask for Step {
     fn init(&self, ctx: &Context) -> Result<()> {
@@ -73,7 +84,7 @@ impl ActTask for Step {
                 }
             }
 
-            if count == tasks.len() {
+            if count == tasks.len() && !has_open_act(&task) {
                 if !task.state().is_completed() {
                     task.set_state(TaskState::Completed);
                 }
@@ -113,7 +124,7 @@ impl ActTask for Step {
                 }
             }
 
-            if count == tasks.len() {
+            if count == tasks.len() && !has_open_act(&task) {
                 if !task.state().is_completed() {
                     task.set_state(TaskState::Completed);
                 }
